@@ -60,6 +60,8 @@ pub fn attrs() -> Vec<Item> {
         Item::Attr(Some("z"), "x", "5"),
         Item::Attr(Some("p"), "xmlns", "6"),
         Item::Attr(Some("u"), "y", "7"),
+        // same expanded name as xml:lang when q is bound to the XML namespace
+        Item::Attr(Some("q"), "lang", "8"),
     ]
 }
 
@@ -495,7 +497,7 @@ pub fn main(ctx: &Ctx, c17: bool) -> ! {
     if c17 {
         nvals = value_sweep(ctx, &st, ctx.tier);
     }
-    ctx.assume("names {a, p:a, q:a, script}; declarations subsets (<=2) of {xmlns=u1, xmlns='', xmlns:p=u1|u2|'', xmlns:q=u1, xmlns:xml=<xml uri>|u9}; attributes subsets of {x, p:x, q:x, xml:lang, z:x, p:xmlns, u:y}; every order of the items of a tag; tag forms start..end, empty, short end tag, closed by the parent's end tag, unclosed at EOF, and end tags that close several open elements at once (declarations on the named, an intermediate or the innermost element); probes using every prefix inside and after the element");
+    ctx.assume("names {a, p:a, q:a, script}; declarations subsets (<=2) of {xmlns=u1, xmlns='', xmlns:p=u1|u2|'', xmlns:q=u1, xmlns:xml=<xml uri>|u9}; attributes subsets of {x, p:x, q:x, xml:lang, z:x, p:xmlns, u:y, q:lang}; every order of the items of a tag; tag forms start..end, empty, short end tag, closed by the parent's end tag, unclosed at EOF, and end tags that close several open elements at once (declarations on the named, an intermediate or the innermost element); probes using every prefix inside and after the element");
     if c17 {
         ctx.assume("the first parse is the specification of the second (no model); doctype ids excluded; text/attribute/comment/PI strings over a 12-symbol alphabet up to length 3");
     } else {
@@ -514,6 +516,27 @@ pub fn main(ctx: &Ctx, c17: bool) -> ! {
             "samples": ["<r xmlns:z=\"uz\"><m><p:a xmlns:p=\"u1\" p:x=\"2\" x=\"1\"><p:b p:k=\"8\" q:k=\"9\" k=\"0\"/>...</p:a>...</m></r>", "<a xmlns=\"u1\"><a xmlns=\"\"><b/></a><b/></a>"],
         }),
     )
+}
+
+/// C05 over the namespace corpus: the attribute lists the XML tree builder hands to the sink after
+/// namespace resolution (no two attributes with the same expanded name), and the rest of the calling contract
+pub fn contract_sweep(ctx: &Ctx) -> u64 {
+    let a = gen_job_a(ctx.tier);
+    let b = gen_job_b(ctx.tier);
+    let n = AtomicU64::new(0);
+    a.into_par_iter().chain(b.into_par_iter()).for_each(|t| {
+        let doc = if t.children.is_empty() { document(t) } else { wrap(t) };
+        let mut text = String::new();
+        render(&doc, &mut text);
+        n.fetch_add(1, Ordering::Relaxed);
+        let sched = vec![Feed::Chunk(text.clone())];
+        if let Ok(o) = guarded(|| run_xml_tree(&XmlCfg::default(), &sched, true)) {
+            if let Some(c) = o.sink.contract.borrow().first() {
+                ctx.violation("contract", &crate::c15::witness(&XmlCfg::default(), &sched), json!({"message": c, "job": "xml-namespaces"}));
+            }
+        }
+    });
+    n.load(Ordering::Relaxed)
 }
 
 fn items_len_gt3(v: &[Item]) -> bool {
